@@ -75,3 +75,18 @@ PROPS["C20"] = dict(canon="serve", timeout=1200,
     rule="pipelines of C03 (valid, ill-formed, unknown, QUIT, composed commands) with a recording tracer, authorized and unauthorized, end of stream at the end, at a request boundary "
          "and at a sampled inner offset; oracle: every span started once and finished once, children inside parents, one root per request; non-trivial = every case",
     trusted_base=SERVE_TB, assumptions=SERVE_AS + ["runs that end in a recovered panic leave spans open; they are C07's subject"])
+
+SYS_TB = [KERNEL, TIE, HOOK + ", one goroutine per connection, requests released one at a time in the scripted global order",
+          "recording handler double that also probes the connection-scoped user data (sync.Map of redis.Conn)",
+          "what Server.Start does for requirepass (installing the clear-text authenticator) is replicated by the harness"]
+PROPS["C08"] = dict(canon="sys", timeout=1200,
+    rule="per password (5 passwords incl. spaces and CRLF): every candidate of the dictionary (empty, each strict prefix, extensions incl. NUL/CRLF, case variants, wrong/same user names, "
+         "missing/null arguments) in the one- and two-argument form and in other letter cases, followed by probes; exact forms; wrong-after-right and right-after-wrong; "
+         "all interleavings of 2 connections x 6 programs (3 connections in thorough); random histories over 1..3 connections mixing AUTH candidates with every command; "
+         "oracle: no handler call and no non-error reply on a connection before its own exact AUTH; exact AUTH answered +OK; non-trivial = every case",
+    trusted_base=SYS_TB, assumptions=["no TLS certificate rule configured (that is C09)", "requests are atomic with respect to connection-scoped state (only the connection's own goroutine touches it)"])
+PROPS["C13"] = dict(canon="sys", timeout=1200,
+    rule="all interleavings of two connections x 4x4 programs of SELECT/data commands (incl. failing SELECT and QUIT), random histories over 2..8 connections mixing SELECT, AUTH (right/wrong) "
+         "and data commands, with and without a password; oracle: every handler call sees the database of its own connection's last successful SELECT, its own authorization, its own user data; "
+         "non-trivial = every case",
+    trusted_base=SYS_TB, assumptions=["concurrent (unserialised) execution is exercised by C14/C16's workloads; here requests are released one at a time"])
